@@ -239,6 +239,14 @@ def shape_cases():
         T4 = st([fd("A", 1, SS, a), fd("B", 2, SS, b), fd("Z", 3, INT)])
         for v in ([sl(None), sl(None), I(0)], [sl([S("x"), S("")]), sl([S("y"), S("zz")]), I(5)]):
             out.append((T4, v))
+    # deep nesting (20 levels of structs, a slice of structs every fourth level): the descriptor walk and the JSON indentation grow with it
+    T5, v5 = INT, I(9)
+    for lvl in range(20):
+        if lvl % 4 == 3:
+            T5, v5 = st([fd("E", 1, {"k": "slice", "e": T5})]), [sl([v5])]
+        else:
+            T5, v5 = st([fd("N", 1, T5), fd("K", 2, INT)]), [v5, I(lvl)]
+    out.append((T5, v5))
     cases = []
     for cfgname in ("default", "pt", "pa", "both"):
         for (T, v) in out:
